@@ -233,7 +233,27 @@ def run(R):
                 if why:
                     fails.append({"program": name, "request": "%s %s script=%s" % (req.get("method"), req.get("path"), req.get("script")),
                                   "why": why, "trace": resp.get("trace"), "app_module_source": obs[name]["src"]})
-    hist["other_families"] = {"servers": n_other, "requests_counted": n_other_req}
+    # the family with generic constructors (tools/gen_generic.py): its constructors are raw items, every `ctor` line ends with the
+    # instantiation it built: per request, a request-scoped constructor runs at most once for each instantiation, whoever asks
+    n_gen_req = 0
+    for name, d in rt.items():
+        spec = obs[name]["spec"] if name in obs else None
+        if not spec or spec.get("klass") != "generic" or not d["result"] or "responses" not in d["result"]:
+            continue
+        for req, resp in zip(d["requests"], d["result"]["responses"]):
+            n_gen_req += 1
+            counts = {}
+            for l in resp.get("trace", []):
+                parts = l.split()
+                if len(parts) >= 5 and parts[0] == "ctor" and parts[1].startswith(name + "."):
+                    k = (parts[1], parts[-1])
+                    counts[k] = counts.get(k, 0) + 1
+            for (c, inst), k in sorted(counts.items()):
+                if k > 1:
+                    fails.append({"program": name, "request": "%s %s" % (req.get("method"), req.get("path")),
+                                  "why": "request-scoped constructor `%s` ran %d times for the instantiation %s while one request was served" % (c, k, inst),
+                                  "trace": resp.get("trace"), "app_module_source": obs[name]["src"]})
+    hist["other_families"] = {"servers": n_other, "requests_counted": n_other_req, "generic_family_requests": n_gen_req}
     # ---- `enforce_invariants`: pavexc's own guard vs the model's bookkeeping, on the programs pavexc did not accept
     PANIC = "should be invoked at most once in a request pipeline"
     rej = [o for o in obs.values() if o["rc"] != 0 and lifetrace.usable(o["spec"])]
